@@ -31,7 +31,7 @@ def build_harness():
     """cargo build of the harness against /repo's working tree (hooks on)"""
     hdir = os.path.join(VERIF, "harness")
     lock_src = os.path.join(REPO, "Cargo.lock")
-    rc, out = sh(["cargo", "build", "--offline"], cwd=hdir, timeout=1500)
+    rc, out = sh(["cargo", "build", "--offline", "--target-dir", os.path.join(CACHE, "target")], cwd=hdir, timeout=1500)
     if rc != 0:
         raise BuildError("cargo-build", out)
     return out
